@@ -151,6 +151,7 @@ void LVCalc(matrix *X,
   size_t i;
   size_t j;
   size_t loop;
+  int null_lv = 0;
   double mod_p_old;
   double dot_q;
   double dot_t;
@@ -219,6 +220,17 @@ void LVCalc(matrix *X,
     DVectorSet(w_, 0.f); /* Reset the w vector */
     DVectorMatrixDotProduct(X_, u_, w_);
     dot_u = DVectorDVectorDotProd(u_, u_);
+    dot_w = DVectorDVectorDotProd(w_, w_);
+
+    if(dot_u == 0.f || dot_w == 0.f || _isnan_(dot_u) || _isnan_(dot_w)){
+      /* Null latent variable: u'X is the zero vector (constant response, X or Y
+       * completely deflated, more latent variables requested than available).
+       * w = u'X/u'u normalised would be 0/0 and the convergence test could never
+       * succeed: return a zero latent variable and leave X and Y untouched.
+       */
+      null_lv = 1;
+      break;
+    }
 
     for(i = 0; i < w_->size; i++){
       w_->data[i] /= dot_u;
@@ -303,6 +315,15 @@ void LVCalc(matrix *X,
     /* End step 8 */
   }
 
+  if(null_lv == 1){
+    DVectorSet(t_, 0.f);
+    DVectorSet(u_, 0.f);
+    DVectorSet(p_, 0.f);
+    DVectorSet(q_, 0.f);
+    DVectorSet(w_, 0.f);
+    (*bcoef) = 0.f;
+  }
+  else{
   /* Step 9 compute the loading vector for X: p' = t'X/t't  and y */
   DVectorMatrixDotProduct(X_, t_, p_);
 
@@ -354,6 +375,7 @@ void LVCalc(matrix *X,
       Y_->data[i][j] -= ((*bcoef) * t_->data[i] * q_->data[j]);
     }
   }
+  } /* end of the regular (non null) latent variable */
 
   MatrixCopy(X_, &X);
   MatrixCopy(Y_, &Y);
